@@ -45,6 +45,11 @@ THEOREMS = [
     "Stab.props.C04.C04_claim_cas_exclusive",
     "Stab.props.C04.C04_loser_writes_nothing",
     "Stab.props.C04.C04_loser_only_requeues_or_cancels",
+    "Stab.props.C04.C04_one_start_task",
+    "Stab.props.C04.C04_join_bump_claim_lost",
+    "Stab.props.C04.C04_join_bump_then_push",
+    "Stab.props.C04.C04_join_bump_safe",
+    "Stab.props.C04.C04_structural_reachable",
     "Stab.props.C04.C04_nonclaimant_bump_refuted",
     "Stab.props.C04.C04_plan_lost_to_bump_refuted",
 ]
